@@ -37,4 +37,16 @@ theorem payload_names_requester (cid : Nat) (token query params : String) :
   · simp [Gw.reqPayload, List.append_assoc]
   · simp
 
+/-- **Whom a token reset addresses** (`wsConn.TokenReset`, the decision the model's connection
+    actor takes before it issues the auth request): exactly the connections that have a token id
+    and whose token id the reset names. An empty or `null` entry in the list addresses nobody: a
+    connection without token id is never addressed. -/
+theorem token_reset_addresses_iff (tid : String) (tids : List String) :
+    Gw.resetAddresses tid tids = true ↔ tid ≠ "" ∧ tid ∈ tids := by
+  unfold Gw.resetAddresses
+  simp [List.contains_iff_mem]
+
+theorem token_reset_never_addresses_anonymous (tids : List String) : Gw.resetAddresses "" tids = false := by
+  unfold Gw.resetAddresses; simp
+
 end Resgate.C10
